@@ -20,7 +20,7 @@ ID = "C15"
 RULE = (
     "absolute: partial grids without pole-enclosing faces {mixed 3..6-gon patch, antimeridian strip (nodes on +-180), three crossing faces of sizes 3/4/5 between ordinary "
     "faces, one face of every size 3..8} x {to_geodataframe (spatialpandas, geopandas), to_polycollection, to_linecollection, UxDataArray.to_geodataframe, UxDataArray.to_polycollection} x "
-    "periodic_elements {exclude, split, ignore} x projection {None, Robinson}; plus, on the grids with faces at every longitude / at +-180 (equatorial ring of 8 quads + 8 triangles, am3, amstrip), the same calls x {exclude, ignore} x projection central longitude {90, 180, -120}; history: BFS depth d over 46 conversion events (arguments x "
+    "periodic_elements {exclude, split, ignore} x projection {None, Robinson}; plus, on the grids with faces at every longitude / at +-180 (equatorial ring of 8 quads + 8 triangles, am3, amstrip), the same calls x {exclude, ignore} x projection central longitude {90, 180, -120}; antimeridian_face_indices by definition on closed / pole-enclosing grids under every start corner of every face; history: BFS depth d over 46 conversion events (arguments x "
     "cache/override flags x projections incl. central_longitude=180 x two data variables) on 3 grids, states merged on the digest of the grid's caches. "
     "non-trivial = grid with at least one antimeridian face and one ordinary face, or a history event that hit / replaced a cache; distinct = (grid, call, arguments)"
 )
@@ -481,8 +481,46 @@ def _replay(sname, hist, check_from=0, want_canon_at=None):
 EXP.replay = _replay
 
 
+AM_GRIDS_Q = ["polecap", "cube", "pyr4", "octa", "polefan", "polarcap2", "amstrip", "cs2"]
+AM_GRIDS_T = AM_GRIDS_Q + ["tetra", "prism", "pyr6", "icosa", "polarcap2s", "eqring", "finequads-am"]
+
+
 def cases(tier):
-    return [{"kind": "absolute", "mesh": n} for n in (GRIDS_Q if tier == "quick" else GRIDS_T)]
+    out = [{"kind": "absolute", "mesh": n} for n in (GRIDS_Q if tier == "quick" else GRIDS_T)]
+    # antimeridian_face_indices by definition on ANY grid (closed, pole-enclosing faces) under every start corner of every face
+    out += [{"kind": "am", "mesh": n} for n in (AM_GRIDS_Q if tier == "quick" else AM_GRIDS_T)]
+    return out
+
+
+def _run_am(case, res):
+    """antimeridian faces = faces with an edge (the closing one included) spanning >= 180 degrees of longitude; a pole-enclosing face has an odd
+    number of such edges, possibly only the closing one"""
+    V = res["violations"]
+    base = meshes.get(case["mesh"])
+    variants = [({"start": None}, base)] + [({"start": [fi, k]}, base.rotate_face(fi, k)) for fi, k in meshes.start_corners(base)]
+    for d, m in variants:
+        if "only" in case and d != case["only"]:
+            continue
+        pool.fresh()
+        g = build.grid(m)
+        mdl = Model(m, None)
+        res["evaluations"] += 1
+        res["transitions"] += 1
+        key = digest((case["mesh"], "am", d))
+        res["states"].append(key)
+        if mdl.am and len(mdl.am) < m.n_face:
+            res["nontrivial"].append(key)
+        try:
+            got = sorted(int(i) for i in np.asarray(g.antimeridian_face_indices).ravel())
+        except Exception as e:
+            V.append({"oracle": "absolute", "sig": "c15:antimeridian_face_indices:raises:%s" % type(e).__name__, "msg": "grid %s %s: %r" % (case["mesh"], d, e), "focus": dict(case, only=d)})
+            continue
+        if got != sorted(mdl.am):
+            V.append({"oracle": "absolute", "sig": "c15:antimeridian_face_indices", "msg": "grid %s, %s: antimeridian_face_indices %s, faces with an edge spanning >= 180 degrees: %s" % (case["mesh"], d, got, mdl.am), "focus": dict(case, only=d)})
+        res["outcomes"].append(digest(got))
+    res["axes"] = {"am_grid": {case["mesh"]: res["evaluations"]}}
+    res["sample"] = {"mesh": case["mesh"], "kind": "am"}
+    return res
 
 
 def selftest_case(tier):
@@ -496,6 +534,8 @@ def warmup(tier):
 
 
 def run_case(case):
+    if case["kind"] == "am":
+        return _run_am(case, {"violations": [], "evaluations": 0, "transitions": 0, "nontrivial": [], "outcomes": [], "axes": {}, "states": []})
     if case["kind"] == "absolute":
         return _run_absolute(case, {"violations": [], "evaluations": 0, "transitions": 0, "nontrivial": [], "outcomes": [], "axes": {}, "states": []})
     return EXP.task(case)
